@@ -378,6 +378,59 @@ func (w *World) maxNumber() uint64 {
 	return m
 }
 
+// knownIndexDuplicates attributes an address-index-only difference between image a (of node n, which reorganised) and
+// image b to the known mechanism (same root cause as the C06 finding): a block that both spends and trims one output
+// records it in its spent AND trimmed undo lists, so rolling it back re-adds the outpoint to the address index twice. It
+// returns the cause token only if dropping exactly those duplicates from a makes the images equal.
+func knownIndexDuplicates(w *World, n *Node, a, b map[string][]byte) string {
+	if classifyDiff(a, b) != "[address-index]" {
+		return ""
+	}
+	both := map[string]bool{}
+	db := n.DBs[common.ZONE_CTX]
+	for _, h := range w.Tips {
+		sp, _ := rawdb.ReadSpentUTXOs(db, h)
+		trm, _ := rawdb.ReadTrimmedUTXOs(db, h)
+		isSp := map[string]bool{}
+		for _, x := range sp {
+			isSp[fmt.Sprintf("%x:%d", x.TxHash, x.Index)] = true
+		}
+		for _, x := range trm {
+			if k := fmt.Sprintf("%x:%d", x.TxHash, x.Index); isSp[k] {
+				both[k] = true
+			}
+		}
+	}
+	if len(both) == 0 {
+		return ""
+	}
+	a2 := map[string][]byte{}
+	for k, v := range a {
+		a2[k] = v
+		if len(k) > 4 && k[:4] == "auwh" {
+			var kept []string
+			seen := map[string]bool{}
+			for _, it := range strings.Split(string(v), ",") {
+				parts := strings.SplitN(it, ":", 3)
+				op := ""
+				if len(parts) >= 2 {
+					op = parts[0] + ":" + parts[1]
+				}
+				if both[op] && seen[it] {
+					continue
+				}
+				seen[it] = true
+				kept = append(kept, it)
+			}
+			a2[k] = []byte(strings.Join(kept, ","))
+		}
+	}
+	if DiffImages(a2, b) == "[]" {
+		return " cause=output-spent-and-trimmed-in-same-block"
+	}
+	return ""
+}
+
 // freshNodeOn builds a second node that only ever sees the line of tip.
 func (w *World) freshNodeOn(cfg NodeConfig, tip common.Hash) (*Node, error) {
 	cfg.Name = "ref"
@@ -417,53 +470,7 @@ func TestC10(t *testing.T) {
 			up := w.maxNumber()
 			a, b := ChainStateImage(n, up), ChainStateImage(ref, up)
 			if d := DiffImages(a, b); d != "[]" {
-				cause := ""
-				if classifyDiff(a, b) == "[address-index]" {
-					// Known mechanism (same root cause as the C06 finding): a block that both spends and trims one output records it in
-					// its spent AND trimmed undo lists, so rolling it back re-adds the outpoint to the address index twice. Attribute the
-					// difference to it only if dropping exactly those duplicates makes the images equal.
-					both := map[string]bool{}
-					db := n.DBs[common.ZONE_CTX]
-					for _, h := range w.Tips {
-						sp, _ := rawdb.ReadSpentUTXOs(db, h)
-						trm, _ := rawdb.ReadTrimmedUTXOs(db, h)
-						isSp := map[string]bool{}
-						for _, x := range sp {
-							isSp[fmt.Sprintf("%x:%d", x.TxHash, x.Index)] = true
-						}
-						for _, x := range trm {
-							if k := fmt.Sprintf("%x:%d", x.TxHash, x.Index); isSp[k] {
-								both[k] = true
-							}
-						}
-					}
-					if len(both) > 0 {
-						a2 := map[string][]byte{}
-						for k, v := range a {
-							a2[k] = v
-							if len(k) > 4 && k[:4] == "auwh" {
-								var kept []string
-								seen := map[string]bool{}
-								for _, it := range strings.Split(string(v), ",") {
-									parts := strings.SplitN(it, ":", 3)
-									op := ""
-									if len(parts) >= 2 {
-										op = parts[0] + ":" + parts[1]
-									}
-									if both[op] && seen[it] {
-										continue
-									}
-									seen[it] = true
-									kept = append(kept, it)
-								}
-								a2[k] = []byte(strings.Join(kept, ","))
-							}
-						}
-						if DiffImages(a2, b) == "[]" {
-							cause = " cause=output-spent-and-trimmed-in-same-block"
-						}
-					}
-				}
+				cause := knownIndexDuplicates(w, n, a, b)
 				fail("refine-vs-fresh-node", when+" differs="+classifyDiff(a, b)+cause, fmt.Sprintf("after switching to %x (#%d) the node's chain state differs from a node that followed that branch directly (left=reorged node, right=fresh node): %s", tip[:6], w.Blocks[tip].Number, d))
 				return
 			}
@@ -919,7 +926,7 @@ func forgePendingEtxs(w *World, nd *Node, bi *BlockInfo, blk *types.WorkObject, 
 	}
 	for _, ctx := range []int{common.REGION_CTX, common.PRIME_CTX} {
 		err := nd.Cores[ctx].AddPendingEtxs(types.PendingEtxs{Header: blk.ConvertToPEtxView(), OutboundEtxs: forged})
-		simkit.Global.Inc("fault_forged_pending_etxs_" + variant)
+		simkit.Global.Inc("fault.forged_pending_etxs_" + variant)
 		w.Tr.Event("forged pending etxs %s for %x at ctx %d: %v", variant, bi.Hash[:4], ctx, err)
 		if err == nil {
 			fail("nothing-altered", "forged-pending-etxs-accepted variant="+variant, fmt.Sprintf("ctx %d stored a batch of %d pending ETXs for block %x whose header commits to %d ETXs (%x)", ctx, len(forged), bi.Hash[:6], len(genuine), blk.OutboundEtxHash()))
